@@ -312,10 +312,10 @@ func (n *inode) readAll(s sessionCred, untilId uint64) []streamed {
 	target := uint64(0)
 	first, _ := ircStore.FirstIndex()
 	for idx := node.LastIndex(); idx >= 1 && idx >= first && target == 0; idx-- {
-		if msgs, ok := outputStream.Get(robust.Id{Id: idx}); ok {
+		if msgs, ok := outputStream.Get(robust.Id{Id: robust.IdFromRaftIndex(idx)}); ok {
 			for _, m := range msgs {
 				if m.InterestingFor[s.Num] {
-					target = idx
+					target = robust.IdFromRaftIndex(idx)
 				}
 			}
 		}
